@@ -654,14 +654,17 @@ def json_VariabilityHierarchy__twin(n1: str, g1: str, n2: str) -> bool:
 
 def json_EstimationStep__twin(oi: int, inter: bool, mx: int, k1: int, v1: int, gi: bool) -> bool:
     """
-    witness with empty residuals/predictions regardless of VH_SHAPE
+    The obligation fails for every step on the unchanged tree (finding G2), so the witness is weaker: a reachable step
+    whose dictionary passes the JSON model and from_dict and comes back as a step with the same scalar fields.
     pre: 0 <= oi < len(ES_TABLES[OPTF % 3][1]) and 0 <= k1 < NK and mx >= 1
     post: _ == True
     """
     o = _es_options(oi)
     x = mk_est(o['method'], inter, o['pum'], False, None if gi else mx, False, None, None, None, None, (), (),
                o['solver'], None, None, mk_opts(1, k1, v1, 0, 0), False)
-    return not _witness(json_obligation, X.EstimationStep, x)
+    y = X.EstimationStep.from_dict(jsonify(x.to_dict()))
+    return not (reachable(x) and type(y) is type(x) and y.method == x.method and y.tool_options == x.tool_options
+                and y.maximum_evaluations == x.maximum_evaluations and y is not x)
 
 
 def json_SimulationStep__twin(n: int, seed: int, v1: int) -> bool:
@@ -672,14 +675,15 @@ def json_SimulationStep__twin(n: int, seed: int, v1: int) -> bool:
     return not _witness(json_obligation, X.SimulationStep, mk_sim(n, seed, None, None, None, mk_opts(1, 0, v1, 0, 0)))
 
 
-def json_ExecutionSteps__twin(i1: bool, x1: int, n2: int) -> bool:
+def json_ExecutionSteps__twin(n1: int, seed: int, n2: int) -> bool:
     """
-    pre: x1 >= 1 and n2 >= 1
+    witness without estimation steps (they all fail through JSON, finding G2)
+    pre: n1 >= 1 and n2 >= 1
     post: _ == True
     """
-    e = mk_est('FO', i1, None, False, x1, False, None, None, None, None, (), (), None, None, None,
-               mk_opts(0, 0, 0, 0, 0), False)
-    return not _witness(json_obligation, X.ExecutionSteps, mk_steps([e, mk_sim(n2, 1, None, None, None, mk_opts(0, 0, 0, 0, 0))]))
+    x = mk_steps([mk_sim(n1, seed, None, None, None, mk_opts(0, 0, 0, 0, 0)),
+                  mk_sim(n2, 1, None, None, None, mk_opts(0, 0, 0, 0, 0))])
+    return not _witness(json_obligation, X.ExecutionSteps, x)
 
 
 def json_LogEntry__twin(category: str, message: str, ti: int) -> bool:
